@@ -18,7 +18,7 @@
    C06_partial: the attribute list of a node element (beyond NodeId) and its Value are decided by the
    correspondence run (model document = lxml reading of the written text) and by the independent-reader oracle. *)
 From Coq Require Import String Ascii List Bool Arith NArith ZArith.
-Require Import PyStr PyInt Sexp Xml M_C09 M_C08 Ns Table M_Parse M_Write T_Write T_Write2 XmlL M_C08d M_ParseText M_WriteText T_WriteText T_ReadWritten.
+Require Import PyStr PyInt Sexp Xml M_C09 M_C08 Ns Table M_Parse M_Write T_Write T_Write2 XmlL M_C08d M_ParseText M_WriteText T_WriteText T_ReadWritten T_C05 T_C05r.
 Import ListNotations.
 Open Scope char_scope.
 
@@ -86,6 +86,30 @@ Theorem C06_identifier_resolution : forall p k refs r m, indices_ok p -> k < len
   = nth (Z.to_nat (nid_ns (nr_nodeid r))) (p_namespaces p) [].
 Proof. exact identifier_resolution. Qed.
 
+(* the references, writer composed with parser: the document written for U, parsed in any context whose table starts with the same
+   namespace 0, yields exactly the graph's references with an endpoint in U (after the outgoing-reference switch) - none invented
+   (sound), none lost (complete) - every source, target and type read back as the same identifier under the same namespace URI.
+   Hypotheses: the regularity conditions, well-formed identifiers that do not end in a blank (the parser right-strips reference
+   targets), and a graph closed under the references that touch U (what UAGraph's constructor checks, C11). *)
+Theorem C06_references_roundtrip_sound : forall E ns p w d k refs ns1 fo,
+  str_index (wp_uri w) (p_namespaces p) = Some k -> use_refs p w (Z.of_nat k) = Ok refs -> regular p k refs ->
+  write_doc p w = Ok d -> parse_file E ns d = Ok (ns1, fo) ->
+  (forall r, In r (p_nodes p) -> valid (nr_nodeid r) = true) ->
+  (forall r, In r (p_nodes p) -> rstrip (nid_value (nr_nodeid r)) = nid_value (nr_nodeid r)) ->
+  nth_error ns1 0 = Some (nth 0 (p_namespaces p) []) ->
+  (forall t, In t refs -> touches p k refs t = true -> is_node p (fst (fst t)) /\ is_node p (snd (fst t)) /\ is_node p (snd t)) ->
+  forall t', In t' (fo_refs fo) -> exists t, In t refs /\ touches p k refs t = true /\ same_triple p ns1 t t'.
+Proof. exact refs_roundtrip_sound. Qed.
+Theorem C06_references_roundtrip_complete : forall E ns p w d k refs ns1 fo,
+  str_index (wp_uri w) (p_namespaces p) = Some k -> use_refs p w (Z.of_nat k) = Ok refs -> regular p k refs ->
+  write_doc p w = Ok d -> parse_file E ns d = Ok (ns1, fo) ->
+  (forall r, In r (p_nodes p) -> valid (nr_nodeid r) = true) ->
+  (forall r, In r (p_nodes p) -> rstrip (nid_value (nr_nodeid r)) = nid_value (nr_nodeid r)) ->
+  nth_error ns1 0 = Some (nth 0 (p_namespaces p) []) ->
+  (forall t, In t refs -> touches p k refs t = true -> is_node p (fst (fst t)) /\ is_node p (snd (fst t)) /\ is_node p (snd t)) ->
+  forall t, In t refs -> touches p k refs t = true -> exists t', In t' (fo_refs fo) /\ same_triple p ns1 t t'.
+Proof. exact refs_roundtrip_complete. Qed.
+
 Print Assumptions C06_refs_all.
 Print Assumptions C06_refs_filtered.
 Print Assumptions C06_unknown_namespace.
@@ -98,3 +122,5 @@ Print Assumptions C06_reference_elements.
 Print Assumptions C06_references_written_once.
 Print Assumptions C06_read_written.
 Print Assumptions C06_identifier_resolution.
+Print Assumptions C06_references_roundtrip_sound.
+Print Assumptions C06_references_roundtrip_complete.
